@@ -456,6 +456,9 @@ func genFromRootOp(c *Ctx, allowMassive bool) Op {
 		if op.Branch != nil && c.Chance(1, 5) {
 			op.BranchOnly = []string{"last", "mid"}[c.Draw(2)]
 		}
+		if c.Chance(1, 6) {
+			op.DryRun = true // accepted by the walks: names are validated before the first callback
+		}
 	case 6:
 		op.Kind = "walkiter"
 	case 7:
@@ -479,6 +482,12 @@ func genFromRootOp(c *Ctx, allowMassive bool) Op {
 	}
 	if c.Chance(1, 10) {
 		op.Decoys = true
+	}
+	if c.Chance(1, 10) {
+		op.Stray = true
+	}
+	if op.Kind != "output" && !op.DryRun && !op.Massive && c.Chance(1, 25) {
+		op.StrayEncode = true
 	}
 	if c.Chance(1, 8) {
 		op.Alias = true
@@ -695,7 +704,7 @@ func caseC13(c *Ctx) {
 			if nTasks > 1 {
 				multi = "concurrent"
 			}
-			c.Failf("C13:result-depends-on-history:"+cls+":"+h.Op.Kind+":"+aspect+":"+multi,
+			c.Failf("C13:result-depends-on-history:"+cls+":"+h.Op.Kind+strayTag(h.Op)+":"+aspect+":"+multi,
 				"call #%d (%s): result in the history differs from the result on a freshly built tree %s:\n%s", i, h, modelStr(h.Model), diff)
 		}
 	}
@@ -827,7 +836,7 @@ func caseC03(c *Ctx) {
 		prog = append(prog, fmt.Sprintf("Add(%q under %q)", odd, model.Name))
 		c.st.Count("odd-name-for-non-validating-op")
 	}
-	if (op.Kind == "verify" || (op.Kind == "output" && op.DryRun)) && model.Count() >= 2 && c.Chance(1, 5) {
+	if (op.Kind == "verify" || (op.DryRun && (op.Kind == "output" || op.Kind == "walk" || op.Kind == "mkdir"))) && model.Count() >= 2 && c.Chance(1, 5) {
 		// a name that is not a single path element: both families must reject it alike
 		bad := []string{"a/b", "x/", "/abs", "p/q/r"}[c.Draw(4)]
 		victim := root.Add(bad)
@@ -928,7 +937,7 @@ func caseC03(c *Ctx) {
 		if j := strings.IndexAny(aspect, " \n"); j > 0 {
 			aspect = aspect[:j]
 		}
-		c.Failf("C03:from-root-differs-from-markdown:"+opSig(op)+":"+aspect, "%s on the built tree vs %s on the spelling:\n%s", op, mdop, diff)
+		c.Failf("C03:from-root-differs-from-markdown:"+opSig(op)+strayTag(op)+":"+aspect, "%s on the built tree vs %s on the spelling:\n%s", op, mdop, diff)
 	}
 	// deprecated alias: identical result
 	if c.Chance(1, 3) {
@@ -941,7 +950,7 @@ func caseC03(c *Ctx) {
 		simfs.Uninstall()
 		c.st.Count("alias.compared")
 		if diff := got.diff(r2); diff != "" {
-			c.Failf("C03:alias-differs:"+op.Kind, "%s vs %s:\n%s", op, al, diff)
+			c.Failf("C03:alias-differs:"+op.Kind+strayTag(op), "%s vs %s:\n%s", op, al, diff)
 		}
 	}
 }
@@ -962,11 +971,16 @@ func caseC03Rejection(c *Ctx, jail string) {
 	var node *gtree.Node
 	want := gtree.ErrNilNode
 	kind := "nil-node"
-	if c.Draw(2) == 1 && model.Count() > 1 {
+	switch k := c.Draw(5); {
+	case k <= 1 && model.Count() > 1:
 		root := buildNode(model)
 		node = root.Add(model.Kids[0].Name) // existing child: a non-root node
 		want = gtree.ErrNotRoot
 		kind = "non-root"
+	case k == 2:
+		node = new(gtree.Node) // not made by NewRoot: not a root either
+		want = gtree.ErrNotRoot
+		kind = "zero-value-node"
 	}
 	c.Scenario["op"] = op.String()
 	c.Scenario["argument"] = kind
@@ -1149,4 +1163,13 @@ func exhRun(c *Ctx, seq []int, idx int, jail string, refCache map[string]*opResu
 		}
 	}
 	return true
+}
+
+// strayTag marks signatures of operations that were given an encode option they have no
+// use for (walk, mkdir, verify): a class of its own, see known_findings.txt.
+func strayTag(op Op) string {
+	if op.StrayEncode && op.Kind != "output" && op.Encode == 0 {
+		return "+encode-option"
+	}
+	return ""
 }
